@@ -8,22 +8,16 @@ of an instance's pins. -/
 namespace KV.Transform
 open KV KV.TL
 
-/-- the row of `dump_techlib.describe` for the circuit `m` scheduled in `order`: the op rows, the port list (name, driven,
-    (P)PI slot of an undriven port / captured line of a driven one), no state element.  The last two clauses restate what the
-    port list says in the form the proof uses (they follow from the second clause; they are checked, not derived): where the
-    slot of the `j`-th port is found among the input slots of the row, and which lines the outputs capture. -/
-def describesB (tbl : List PrefixRow) (cr : Cell) (m : NNet) (sh : Shape) (order : List Nat) : Bool :=
+/-- the row of `dump_techlib.describe` for the circuit `m` scheduled in `order`: the op rows are the rows of the `SimOps` model,
+    the port list is `io_nodes` in order with name, driven flag (`len(ins) > 0`) and the (P)PI slot `ppi + k` of an undriven
+    port / the captured line `ins[0]` of a driven one, there is no state element (`nSeq`, and `s_nodes` = `io_nodes`), and the
+    ports are distinct nodes -/
+def describesB (tbl : List PrefixRow) (cr : Cell) (m : NNet) (order : List Nat) : Bool :=
   (cr.ops == (genOps tbl m.net order false).map fun r => [r.lut, r.out, r.i0, r.i1, r.i2, r.i3]) &&
   (cr.ports == m.net.io.zipIdx.map fun nk =>
-     let nd := m.net.node nk.1
-     ((m.names.getD nk.1 "").toList, decide (nd.ins.length > 0),
-      if nd.ins.length > 0 then (nd.inPin 0).getD 0 else m.net.idx.ppi + nk.2)) &&
-  cr.nSeq == 0 && m.net.sNodes.length == m.net.io.length &&
-  (m.net.io.zipIdx.all fun nk =>
-     cr.inSlots.idxOf? (m.net.idx.ppi + nk.2) ==
-       (if (m.net.node nk.1).ins.length == 0 then some (sh.inPorts.idxOf nk.1) else none)) &&
-  (cr.inSlots.idxOf? m.net.idx.zero).isNone && cr.inSlots.length == sh.inPorts.length &&
-  (cr.outLines.map (·.2) == sh.outLines)
+     ((m.names.getD nk.1 "").toList, decide ((m.net.node nk.1).ins.length > 0),
+      if (m.net.node nk.1).ins.length > 0 then ((m.net.node nk.1).inPin 0).getD 0 else m.net.idx.ppi + nk.2)) &&
+  cr.nSeq == 0 && m.net.sNodes.length == m.net.io.length && decide m.net.io.Nodup
 
 /-- every input pin of the instance is connected and there are as many as the implementation has input ports -/
 def pinsFitB (h : NNet) (c : Nat) (sh : Shape) : Bool :=
